@@ -1,6 +1,224 @@
-From Coq Require Import List Bool.
-From PV Require Import Base.Exn Model.ValidateSem Gen.Validate.
+(* C12 - @validate is a gate: the body only ever sees validated values.
+
+   Property theorems.  `Gen.Validate.cfg` / `Gen.Validate.is_required_rule` are regenerated from
+   pedantic/decorators/fn_deco_validate/fn_deco_validate.py and parameters/abstract_parameter.py on every run;
+   `vrun` is the model (Model/ValidateSem.v) interpreting them.  All theorems hold for every value universe,
+   every signature without a var-positional parameter (plain function, method, coroutine function), every list
+   of Parameters, validator chains of any length whose members are arbitrary functions value -> outcome value,
+   every strict / return_as / ignore_input setting and every call.
+
+   Guards (boolean, see Proofs/ValidateGate.v):
+     self_guard  - the name `self` arrives only as the implicit first positional argument and is not the name
+                   of a Parameter (fn_deco_validate.py treats that name specially);
+     gate_guard  - return_as is not ARGS, or every name that reaches the call is a parameter of the function,
+                   or the function takes **kwargs, or the call is a method call.
+   Outside gate_guard the property is FALSE on the current source (C12_gate_refuted, known finding
+   C12-K1-args-arrival-order-on-unknown-name): _as_args falls back to arrival order.                           *)
+From Coq Require Import List Arith Bool Permutation.
+From PV Require Import Base.Exn Model.ValidateSem Spec.ValidateSpec Proofs.ValidateDict Proofs.ValidateRef
+  Proofs.ValidateBind Proofs.ValidateGate Proofs.ValidateByName Gen.Validate.
 Import ListNotations.
-Theorem C12_cfg_is_reference : Gen.Validate.cfg = reference_cfg.
-Proof. reflexivity. Qed.
+
+Definition vrun {value : Type} (is_none : value -> bool) :=
+  run value is_none Gen.Validate.cfg Gen.Validate.is_required_rule.
+Definition vvalidate {value : Type} (is_none : value -> bool) :=
+  param_validate value is_none Gen.Validate.cfg Gen.Validate.is_required_rule.
+
+(* translation obligation: the regenerated configuration is the one the lemmas are proved for *)
+Theorem C12_cfg_is_reference :
+  Gen.Validate.cfg = reference_cfg /\ Gen.Validate.is_required_rule = reference_req_rule.
+Proof. split; reflexivity. Qed.
 Print Assumptions C12_cfg_is_reference.
+
+Lemma vrun_ref : forall value is_none, @vrun value is_none = run value is_none reference_cfg reference_req_rule.
+Proof. intros. unfold vrun. destruct C12_cfg_is_reference as [-> ->]. reflexivity. Qed.
+Lemma vvalidate_ref : forall value is_none,
+  @vvalidate value is_none = param_validate value is_none reference_cfg reference_req_rule.
+Proof. intros. unfold vvalidate. destruct C12_cfg_is_reference as [-> ->]. reflexivity. Qed.
+
+(* Parameter.validate is the full chain: conversion, then every validator in order, each receiving its
+   predecessor's output (spec_param / spec_journal, Spec/ValidateSpec.v); a rejecting step raises the Parameter's
+   exception carrying the parameter name; a foreign exception passes through *)
+Theorem C12_chain_in_order : forall value is_none (p : param value) w,
+  snd (vvalidate is_none p w) =
+    match spec_param value is_none p w with
+    | VPass v => WOk v
+    | VReject => WRaise (p_exc p) (Some (p_name p))
+    | VForeign e => WRaise e None
+    end
+  /\ fst (vvalidate is_none p w) = spec_journal value is_none p w.
+Proof.
+  intros. rewrite vvalidate_ref. split; [|apply pv_journal]. rewrite pv_spec.
+  now destruct (spec_param value is_none p w).
+Qed.
+Print Assumptions C12_chain_in_order.
+
+(* THE GATE.  Full statement (false, see C12_gate_refuted):
+     forall ... c, self_guard c = true -> vrun c = (j, FBody b) -> forall n v, In (n, v) b -> origin c n v.
+   Every value in the body's binding is (origin): the chain output of its Parameter on the value the caller passed
+   for that name; or, the caller passing none, the chain output on the value of its external source; or, the
+   caller passing none, its Parameter default; or the signature default of that name; or - no Parameter declared,
+   strict off (or the name is self) - the caller's value itself.                                                *)
+Theorem C12_gate_partial : forall value is_none sg env dc is_async c j b,
+  self_guard value sg dc c = true -> gate_guard value sg dc c = true ->
+  vrun is_none sg env dc is_async c = (j, FBody b) ->
+  forall n v, In (n, v) b -> origin value is_none sg dc c n v.
+Proof. intros value is_none. rewrite vrun_ref. apply gate. Qed.
+Print Assumptions C12_gate_partial.
+
+(* ---- a small universe for witnesses: values are numbers, 0 plays None ---- *)
+Definition nnone (v : nat) : bool := Nat.eqb v 0.
+Definition at_most (k : nat) : vfun nat := fun v => if Nat.leb v k then Ok v else Raise ValidatorExceptionC.
+Definition plus_one : vfun nat := fun v => Ok (S v).
+Definition mkparam (n : name) (chain : list (vfun nat)) (required : bool) (default : option nat) : param nat :=
+  {| p_name := n; p_convert := None; p_chain := chain; p_required := required; p_default := default;
+     p_exc := ParameterExceptionC; p_ext := None; p_flask_json := false |}.
+Definition mksig (ps : list (name * option nat)) : signature nat :=
+  {| s_params := map (fun nd => {| sp_name := fst nd; sp_kwonly := false; sp_default := snd nd |}) ps; s_varkw := false |}.
+Definition no_env : wenv := {| w_flask_installed := false; w_request := None |}.
+
+(* known finding C12-K1: def f(b=5, a=0), Parameter a / at most 1, strict=False, return_as=ARGS; f(a=1, c=2) runs
+   the body with a=2, b=1: the 2 never went through the chain of a (names: a=1, b=2, c=3) *)
+Definition k1_sig := mksig [(2, Some 5); (1, Some 0)].
+Definition k1_deco : deco nat :=
+  {| d_params := [mkparam 1 [at_most 1] true None]; d_mode := ARGS; d_strict := false; d_ignore_input := false |}.
+Definition k1_call : call nat := {| c_args := []; c_kwargs := [(1, 1); (3, 2)] |}.
+
+Theorem C12_gate_refuted : exists sg env dc is_async c j b n v,
+  self_guard nat sg dc c = true /\ gate_guard nat sg dc c = false /\
+  vrun nnone sg env dc is_async c = (j, FBody b) /\ In (n, v) b /\ ~ origin nat nnone sg dc c n v.
+Proof.
+  exists k1_sig, no_env, k1_deco, false, k1_call, [(1, 0, 1)], [(2, 1); (1, 2)], 1, 2.
+  repeat split; try reflexivity.
+  - right. now left.
+  - intro H. destruct H as [p w Ip Hn [_ G] S|p w Ip Hn Abs _ _|p Ip Hn Abs _|sp Isp Hn D|Dcl _ _].
+    + destruct Ip as [<-|[]]. cbn in G. destruct G as [G|[G|[]]]; [|discriminate G].
+      injection G as <-. vm_compute in S. discriminate S.
+    + apply (Abs 1). split; [reflexivity | now left].
+    + apply (Abs 1). split; [reflexivity | now left].
+    + destruct Isp as [<-|[<-|[]]]; [discriminate Hn | discriminate D].
+    + discriminate Dcl.
+Qed.
+Print Assumptions C12_gate_refuted.
+
+(* ANY REJECTION RAISES BEFORE THE BODY.  A value the caller passes for a declared Parameter that does not pass
+   the chain (rejected at any position, or a foreign exception in a validator): the body does not run *)
+Theorem C12_rejection_no_body : forall value is_none sg env dc is_async c n w p,
+  caller_gives value sg dc c n w -> lookup_param value dc n = Some p ->
+  (forall v, spec_param value is_none p w <> VPass v) ->
+  exists e pn, snd (vrun is_none sg env dc is_async c) = FRaise e pn.
+Proof. intros value is_none. rewrite vrun_ref. apply rejection_no_body. Qed.
+Print Assumptions C12_rejection_no_body.
+
+(* the first rejection wins.  `arrival` lists the arguments in the order in which _wrapper_content meets them
+   (keywords, then the bound positionals); if everything in front of x passes and the Parameter of x rejects, then
+   exactly its exception leaves - class exception_type, attribute parameter_name = the name - the body does not
+   run, and the validators called are those of the arguments in front plus the rejecting chain up to the
+   rejecting validator: nothing behind the rejection is looked at *)
+Theorem C12_first_rejection_no_body : forall value is_none sg env dc is_async c pre x post p,
+  arrival value sg dc c = Some (pre ++ x :: post) ->
+  Forall (fun y => exists v, snd (snd (titem value is_none dc y)) = WOk v) pre ->
+  lookup_param value dc (fst (snd x)) = Some p ->
+  spec_param value is_none p (snd (snd x)) = VReject ->
+  vrun is_none sg env dc is_async c =
+  (flat_map (fun y => fst (snd (titem value is_none dc y))) pre ++ spec_journal value is_none p (snd (snd x)),
+   FRaise (p_exc p) (Some (fst (snd x)))).
+Proof. intros value is_none. rewrite vrun_ref. apply first_rejection. Qed.
+Print Assumptions C12_first_rejection_no_body.
+
+(* an exception that carries a parameter name comes from the Parameter of that name: it rejected the value the
+   caller / its external source gave, or it is required and got no value *)
+Theorem C12_exception_names_parameter : forall value is_none sg env dc is_async c e n,
+  snd (vrun is_none sg env dc is_async c) = FRaise e (Some n) ->
+  exists p, In p (d_params dc) /\ p_name p = n /\ e = p_exc p /\ rejected_here value is_none sg dc c p.
+Proof. intros value is_none. rewrite vrun_ref. apply raise_names_parameter. Qed.
+Print Assumptions C12_exception_names_parameter.
+
+(* STRICT.  An argument without declared Parameter (any keyword; any positional but self): the body does not run;
+   if no declared Parameter rejects its value the exception is TooManyArguments *)
+Theorem C12_strict : forall value is_none sg env dc is_async c x xs,
+  d_strict dc = true -> arrival value sg dc c = Some xs -> In x xs ->
+  declared value dc (fst (snd x)) = false -> (fst x = false \/ fst (snd x) <> self_name) ->
+  (exists e pn, snd (vrun is_none sg env dc is_async c) = FRaise e pn) /\
+  ((forall y p, In y xs -> lookup_param value dc (fst (snd y)) = Some p ->
+                exists v, spec_param value is_none p (snd (snd y)) = VPass v) ->
+   snd (vrun is_none sg env dc is_async c) = FRaise TooManyArgumentsC None).
+Proof.
+  intros value is_none. rewrite vrun_ref. intros. split.
+  - eapply strict_no_body; eassumption.
+  - intro. eapply strict_too_many; eassumption.
+Qed.
+Print Assumptions C12_strict.
+
+(* REQUIRED / NONE / MISSING.  None for a required Parameter: its exception with the name, no validator called;
+   None for a non-required Parameter passes unvalidated (no validator called); a Parameter without value from
+   caller and external source that is required - or has neither Parameter default nor signature default - keeps
+   the body from running *)
+Theorem C12_required_none_missing : forall value is_none,
+  (forall (p : param value) w, spec_required value p = true -> is_none w = true ->
+     vvalidate is_none p w = ([], WRaise (p_exc p) (Some (p_name p)))) /\
+  (forall (p : param value) w, spec_required value p = false -> is_none w = true ->
+     vvalidate is_none p w = ([], WOk w)) /\
+  (forall sg env dc is_async c p,
+     In p (d_params dc) -> (forall w, ~ caller_gives value sg dc c (p_name p) w) -> no_external value p ->
+     (spec_required value p = true \/ (p_default p = None /\ sig_default value sg (p_name p) = None)) ->
+     exists e pn, snd (vrun is_none sg env dc is_async c) = FRaise e pn).
+Proof.
+  intros value is_none. rewrite vrun_ref, vvalidate_ref. repeat split.
+  - apply required_none_rejected.
+  - apply optional_none_passes_unvalidated.
+  - apply missing_value_no_body.
+Qed.
+Print Assumptions C12_required_none_missing.
+
+(* DEFAULT CASCADE.  A declared Parameter (names pairwise distinct) without value from caller and external source,
+   body reached: it is not required, and the body sees the Parameter default if there is one (KWARGS_WITHOUT_NONE:
+   unless that default is None), else the signature default - a third case does not reach the body *)
+Theorem C12_default_cascade : forall value is_none sg env dc is_async c j b p,
+  self_guard value sg dc c = true -> gate_guard value sg dc c = true ->
+  NoDup (map (@p_name value) (d_params dc)) ->
+  vrun is_none sg env dc is_async c = (j, FBody b) ->
+  In p (d_params dc) -> (forall w, ~ caller_gives value sg dc c (p_name p) w) -> no_external value p ->
+  spec_required value p = false /\
+  match p_default p with
+  | Some d => (d_mode dc <> KWARGS_WITHOUT_NONE \/ is_none d = false) -> dget (p_name p) b = Some d
+  | None => exists d, sig_default value sg (p_name p) = Some d /\ dget (p_name p) b = Some d
+  end.
+Proof. intros value is_none. rewrite vrun_ref. apply default_cascade. Qed.
+Print Assumptions C12_default_cascade.
+
+(* ---- non-vacuity: def f(a, b, c=9) with Parameter a / [at most 5; plus one], b / [plus one], c default 4 ---- *)
+Definition ex_sig := mksig [(1, None); (2, None); (3, Some 9)].
+Definition ex_deco (m : return_as) (strict : bool) : deco nat :=
+  {| d_params := [mkparam 1 [at_most 5; plus_one] true None; mkparam 2 [plus_one] true None; mkparam 3 [] false (Some 4)];
+     d_mode := m; d_strict := strict; d_ignore_input := false |}.
+
+Example C12_gate_hypotheses_satisfiable :
+  let c := {| c_args := [3]; c_kwargs := [(2, 4)] |} in
+  self_guard nat ex_sig (ex_deco ARGS true) c = true /\ gate_guard nat ex_sig (ex_deco ARGS true) c = true /\
+  vrun nnone ex_sig no_env (ex_deco ARGS true) false c =
+    ([(2, 0, 4); (1, 0, 3); (1, 1, 3)], FBody [(1, 4); (2, 5); (3, 4)]).
+Proof. repeat split. Qed.
+
+Example C12_first_rejection_hypotheses_satisfiable :
+  let c := {| c_args := [3; 1]; c_kwargs := [(3, 7)] |} in
+  let dc := {| d_params := [mkparam 1 [plus_one; at_most 3; plus_one] true None; mkparam 2 [plus_one] true None;
+                            mkparam 3 [] false None];
+               d_mode := ARGS; d_strict := true; d_ignore_input := false |} in
+  arrival nat ex_sig dc c = Some ([(false, (3, 7))] ++ (true, (1, 3)) :: [(true, (2, 1))]) /\
+  vrun nnone ex_sig no_env dc false c = ([(1, 0, 3); (1, 1, 4)], FRaise ParameterExceptionC (Some 1)).
+Proof. split; reflexivity. Qed.
+
+Example C12_strict_hypotheses_satisfiable :
+  let c := {| c_args := [3; 1]; c_kwargs := [(8, 7)] |} in
+  arrival nat ex_sig (ex_deco ARGS true) c = Some [(false, (8, 7)); (true, (1, 3)); (true, (2, 1))] /\
+  declared nat (ex_deco ARGS true) 8 = false /\
+  snd (vrun nnone ex_sig no_env (ex_deco ARGS true) false c) = FRaise TooManyArgumentsC None.
+Proof. repeat split. Qed.
+
+Example C12_default_cascade_hypotheses_satisfiable :
+  let c := {| c_args := [3; 1]; c_kwargs := [] |} in
+  vrun nnone ex_sig no_env (ex_deco KWARGS_WITHOUT_NONE true) true c =
+    ([(1, 0, 3); (1, 1, 3); (2, 0, 1)], FBody [(1, 4); (2, 2); (3, 4)]) /\
+  NoDup (map (@p_name nat) (d_params (ex_deco KWARGS_WITHOUT_NONE true))).
+Proof. split; [reflexivity|]. repeat constructor; cbn; intuition discriminate. Qed.
